@@ -102,6 +102,16 @@ Definition Known_C18_rowid_index_overlapping_ranges (m : Manifest) : bool :=
 Definition Known_C18_stable_flag_dropped_on_empty_table (us : bool) (m' : Manifest) : bool :=
   negb us && match m_fragments m' with [] => true | _ => false end.
 
+(* Known finding (C18) rowid_sequence_cache_keyed_by_fragment_id: the session cache of decoded row id sequences
+   is keyed by the fragment id alone (RowIdSequenceKey), and Overwrite restarts fragment ids at 0: reading
+   version [m] through a session that has cached the sequences of version [warm] returns the other version's
+   row ids for every fragment id they share *)
+Definition cache_of (m : Manifest) : list (N * list N) := map (fun f => (fr_id f, ids_of f)) (m_fragments m).
+Definition cached_ids (cache : list (N * list N)) (f : Fragment) : list N :=
+  match find (fun p => fst p =? fr_id f) cache with Some p => snd p | None => ids_of f end.
+Definition Known_C18_rowid_sequence_cache_keyed_by_fragment_id (warm m : Manifest) : bool :=
+  existsb (fun f => negb (ln_eqb (cached_ids (cache_of warm) f) (ids_of f))) (m_fragments m).
+
 (* ---------------------------------------------------------------- correspondence checkers *)
 Definition chk_ids_inv (m : Manifest) (o : bool) : bool := Bool.eqb (ids_inv m) o.
 Definition chk_op_ids_ok (i : Manifest * Operation) (o : bool) : bool := Bool.eqb (op_ids_ok (fst i) (snd i)) o.
